@@ -1,5 +1,5 @@
 SPECIFICATION Spec
-CONSTANT Bug = "none"
+CONSTANT Bug = "sync_no_permit"
 INVARIANT Bounded
 INVARIANT PermitsOK
 INVARIANT AllRan
